@@ -5,8 +5,8 @@ from props import _family as F
 
 PROOF_MODULES = ['Jwt.Props.C04']
 PROP_MODULES = ['Jwt.Props.C04']
-PROP_FILES = ['Jwt/Props/C04.lean']
-GENERATED_FACT_THEOREMS = 5
+PROP_FILES = ['Jwt/Props/C04.lean', 'Jwt/Lemmas/PipelineClaims.lean']
+GENERATED_FACT_THEOREMS = 8
 CHECKER_CMD = "cd lean && lake build Jwt.Props.C04 && lake env lean <generated #print axioms file>"
 LEVEL_TEXT = ("Lean theorems: exp/nbf thresholds, type rule, generated defaults and disable bound, string equality, enforcement for every accepted token, and refinement of every configuration history to a last-writer-wins policy (induction over op lists). Tied to the code by threshold/leeway/clock grids, 64-bit extremes, every JSON type per claim, string pairs, and exhaustive configuration sequences judged against the property's own semantics.")
 ASSUMPTIONS = F.COMMON_ASSUME + []
